@@ -246,7 +246,7 @@ def jobs(tier):
             out.append(Job(M, "make_box", dict(name=name, n=4, p=1), split=name.startswith("Local")))
         out.append(Job(M, "make_box", dict(name="L2Cost", n=4, p=1, extra_row=True)))
         for (name, n, p) in (("LocalAnomalyScore(GaussianVarCost)", 5, 1), ("LocalAnomalyScore(GaussianCovCost)", 6, 2), ("ChangeScore(GaussianCovCost)", 6, 2),
-                             ("Saving(GaussianVarCost)", 4, 1)):
+                             ("Saving(GaussianVarCost)", 4, 1), ("GaussianCovCost", 6, 3), ("ChangeScore(GaussianCovCost)", 8, 3)):
             out.append(Job(M, "make_box", dict(name=name, n=n, p=p, data="concrete"), split=True))
         out.append(Job(M, "make_malformed", dict(n=4, p=1)))
     else:
@@ -258,7 +258,7 @@ def jobs(tier):
             out.append(Job(M, "make_box", dict(name=name, n=4, p=1, extra_row=True), split=True))
         for (name, n, p) in (("LocalAnomalyScore(GaussianVarCost)", 6, 1), ("LocalAnomalyScore(GaussianVarCost)", 5, 2), ("LocalAnomalyScore(GaussianCovCost)", 6, 2),
                              ("LocalAnomalyScore(GaussianCovCost)", 7, 2), ("ChangeScore(GaussianCovCost)", 6, 2), ("ChangeScore(GaussianCovCost)", 8, 3),
-                             ("Saving(GaussianVarCost)", 5, 2)):
+                             ("Saving(GaussianVarCost)", 5, 2), ("GaussianCovCost", 6, 3), ("GaussianCovCost", 7, 4), ("LocalAnomalyScore(GaussianCovCost)", 9, 3)):
             out.append(Job(M, "make_box", dict(name=name, n=n, p=p, data="concrete"), split=True))
         out.append(Job(M, "make_malformed", dict(n=5, p=2)))
     return out
